@@ -7,7 +7,7 @@ Rec == ndJsonDeserialize(IOEnv.TRACE)
 Strict == IOEnv.STRICT = "1"
 N == Len(Rec)
 
-TrSupOf == [a \in Actors |-> IF a = "A" THEN "S" ELSE IF a = "B" THEN "A" ELSE NoA]
+TrSupOf == [a \in Actors |-> IF a \in {"A", "L"} THEN "S" ELSE IF a = "B" THEN "A" ELSE NoA]
 TrMonPairs == Actors \X Actors
 TrMax == [a \in Actors |-> 1000]
 TrEnvOps == [a \in Actors |-> {"stop", "kill", "drain", "abort", "selfkill", "selfstop"}]
@@ -23,7 +23,7 @@ Same == UNCHANGED vars
 ND == UNCHANGED dev
 
 \* internal points: consumed in strict mode, skipped (and their actions taken silently) in lenient mode
-Internal == {"port.stop", "port.sup", "port.msg", "port.drain", "sig.handled", "guard.cleanup", "guard.done", "decode.dropped"}
+Internal == {"port.stop", "port.sup", "port.msg", "port.drain", "sig.handled", "guard.cleanup", "guard.done", "decode.dropped", "tl.start"}
 IntA(lbl, A(_)) == IF Strict THEN IsA(lbl) /\ A(X) /\ Adv
                               ELSE Live /\ (\E a \in Actors : A(a)) /\ l' = l
 SkipInternal == ~Strict /\ Live /\ Ev.a \in Internal /\ Same /\ Adv
@@ -60,7 +60,7 @@ EnvEv ==
   \/ IsA("obs.drain") /\ Drain(X) /\ Adv /\ ND
   \/ IsA("obs.inject") /\ Inject(X) /\ (Ev.d = 1) = ac[X].rxOpen /\ Adv /\ ND
   \/ /\ IsA("obs.abort") /\ Adv /\ ND
-     /\ IF ac[X].abortReq = "none" /\ Alive(X) /\ ((Ev.role = "spawner") = (ac[X].pc \in {"new", "pre"}))
+     /\ IF ac[X].abortReq = "none" /\ Alive(X) /\ ((Ev.role = "spawner") = (ac[X].pc \in {"new", "lnew", "pre"}))
           THEN EnvAbort(X) ELSE Same
   \/ /\ IsA("obs.task_dropped") /\ Adv /\ ND
      /\ IF ac[X].abortReq = Ev.role /\ Alive(X) /\ ac[X].pc # "exiting" THEN AbortDrop(X) ELSE Same
@@ -71,6 +71,7 @@ EnvEv ==
   \/ IsA("obs.join_ret") /\ ac[X].pc = "dead" /\ (Ev.r = "cancelled") = (ac[X].exitK = "abort") /\ Ev.r # "panic" /\ Same /\ Adv /\ ND
 
 LoopEv ==
+  \/ IntA("tl.start", LocalStart) /\ ND
   \/ IntA("port.stop", ListenStop) /\ ND
   \/ IntA("port.sup", TakeSup) /\ ND
   \/ IntA("port.msg", TakeMsg) /\ ND
@@ -80,10 +81,13 @@ LoopEv ==
   \/ IntA("decode.dropped", DropUndecodable) /\ ND
   \/ (Strict /\ IsA("guard.done") /\ Same /\ Adv /\ ND)
   \/ (SkipInternal /\ ND)
+\* thread-local tasks carry no name, so the drop of an aborted one cannot be attributed to its actor
+\* from the task table: the abort's effect is taken silently right before the guard cleanup it causes
+SilentDrop(a) == a \in Local /\ AbortDrop(a)
 \* start() refused on a cell that is not Unstarted: no event of its own, the guard cleanup follows
 SilentRefuse == /\ Live /\ l' = l /\ ND
-                /\ IF Strict THEN Ev.a = "guard.cleanup" /\ Ev.x \in Actors /\ StartRefused(Ev.x)
-                             ELSE \E a \in Actors : StartRefused(a)
+                /\ IF Strict THEN Ev.a = "guard.cleanup" /\ Ev.x \in Actors /\ (StartRefused(Ev.x) \/ LocalStartRefused(Ev.x) \/ SilentDrop(Ev.x))
+                             ELSE \E a \in Actors : StartRefused(a) \/ LocalStartRefused(a) \/ SilentDrop(a)
 
 FinOk(f) == /\ f.x \in Actors
             /\ ac[f.x].st = f.st
